@@ -161,7 +161,7 @@ def _tol(op):
     return t
 
 
-def check_adjoint(op, site, first, stats, depth=2, approx=False):
+def check_adjoint(op, site, first, stats, depth=2, approx=False, data=()):
     """All clauses of C05 for one linear operator."""
     dom, ran = op.domain, op.range
     n, m = S.flat_size(dom), S.flat_size(ran)
@@ -300,6 +300,35 @@ def check_adjoint(op, site, first, stats, depth=2, approx=False):
                     break
         except Exception as e:
             first.setdefault((site, 'history_reevaluation_raises:' + type(e).__name__), repr(e)[:300])
+        # the caller modifies, in place, a data element it handed to the constructor (multiplicand,
+        # vector of a vector multiple, ...).  Whether the operator follows that or keeps a private
+        # copy is its business - but A as it acts NOW and A.adjoint requested NOW must satisfy the
+        # identity.  Only judged where the identity held before.
+        if data and (site, 'adjoint_identity_fails') not in first:
+            try:
+                for g in data:
+                    g *= 2
+                adj3 = op.adjoint
+                Ax3 = [op(x) for x in ex]
+                By3 = [adj3(y) for y in ey]
+                stats['evals'] += len(ex) + len(ey)
+                L3 = np.array([[_inner(ran, Ax3[j], y) for j in range(len(ex))] for y in ey])
+                R3 = np.array([[_inner(dom, x, By3[i]) for x in ex] for i in range(len(ey))])
+                if real_only:
+                    L3, R3 = L3.real, R3.real
+                D3 = np.abs(L3 - R3)
+                if D3.size and D3.max() > tol * (1.0 + max(np.abs(L3).max(), np.abs(R3).max())):
+                    i, j = np.unravel_index(np.argmax(D3), D3.shape)
+                    first.setdefault((site, 'adjoint_identity_fails_after_data_element_was_modified'),
+                                     'after the %d data element(s) given to the constructor were '
+                                     'doubled in place: <A x, y> = %r but <x, A* y> = %r with A.adjoint '
+                                     'requested afterwards (x, y = basis vectors %d, %d); A %s the '
+                                     'modification' % (len(data), L3[i, j], R3[i, j], j, i,
+                                                       'follows' if np.abs(L3 - Lm).max() > tol * scale
+                                                       else 'ignores'))
+            except Exception as e:
+                first.setdefault((site, 'history_data_modification_raises:' + type(e).__name__),
+                                 repr(e)[:300])
     if depth > 1 and adj is not op:
         check_adjoint(adj, site + '.adjoint', first, stats, depth - 1, approx)
 
@@ -313,14 +342,14 @@ def run(cfg):
         spec = OR.BY_NAME[cfg['spec']]
         o = spec.opts[cfg['i']]
         try:
-            op = spec.build(o)
+            op, data = OR.build_recording(spec, o)
         except Exception:
             return {'evals': 0, 'skipped': 1, 'trivial': True, 'sig': 'unbuildable'}
         if not op.is_linear:
             return {'evals': 0, 'skipped': 0, 'trivial': True, 'sig': 'nonlinear'}
         from mc.props.c03 import _optstr
         site = '%s[%s]' % (spec.name, _optstr(o))
-        check_adjoint(op, site, first, stats, 2, spec.approx_adjoint)
+        check_adjoint(op, site, first, stats, 2, spec.approx_adjoint, data=data)
         sigs.append('%s:%s' % (type(op).__name__, 'approx' if spec.approx_adjoint else 'exact'))
     elif k == 'expr':
         sp, pool = _d1(cfg['space'])
